@@ -109,46 +109,8 @@ def run(ctx):
             return "pp"
         return "pq"
 
-    # fock._one_center
-    oc = fk.func("_one_center")
-    env = dict(base_env)
-    funcs = torch_funcs()
-
-    def sub_fock(n, rec):
-        t = norm(n).replace(" ", "")
-        if t in ("Pdiag[...,0,0]",):
-            return Pss
-        if t == "Pdiag[:,i,i]":
-            return Ppp
-        if t == "Pdiag[:,0,i]":
-            return Psp
-        if t == "Pdiag[:,ij_0,ij_1]":
-            return Ppq
-        raise AnalysisError(f"_one_center: subscript {t}")
-    funcs["[]"] = sub_fock
+    # fock._one_center and fock_u_batch._one_center_u are decided element by element against the first-principles oracle below
     n3 = 0
-    for st in oc.body:
-        if isinstance(st, ast.Assign) and isinstance(st.targets[0], ast.Name):
-            nm = st.targets[0].id
-            if nm == "Pptot":
-                env[nm] = Pptot
-                ok = norm(st.value).replace(" ", "") == "Pdiag[...,1,1]+Pdiag[...,2,2]+Pdiag[...,3,3]"
-                ctx.check(ok, "R3", fk, st, "_one_center", st, "P_pp^tot = P_xx + P_yy + P_zz", f"p-shell population is `{norm(st.value)}`")
-            elif nm in ("Pss", "Pp_all"):
-                env[nm] = {"Pss": Pss, "Pp_all": Ppp}[nm]
-                want = {"Pss": "Pdiag[...,0,0]", "Pp_all": "Pdiag[:,i,i]"}[nm]
-                ctx.check(norm(st.value).replace(" ", "") == want, "R3", fk, st, "_one_center", st, f"{nm} selects {want}", f"{nm} = `{norm(st.value)}`")
-            elif nm in ("sp_fac_1", "sp_fac_2", "pp_fac_d", "pp_fac_off"):
-                env[nm] = to_sympy(st.value, env, funcs)
-        elif isinstance(st, ast.Assign) and isinstance(st.targets[0], ast.Subscript) and norm(st.targets[0].value) == "tmp":
-            kind = classify(st.targets[0])
-            e = to_sympy(st.value, env, funcs)
-            n3 += 1
-            ctx.check(identically(sp.expand(e - SPEC[kind]), 0), "R3", fk, st, "_one_center", st, f"fock._one_center: F_{kind} equals the published one-centre formula",
-                      f"fock._one_center: F_{kind} = {sp.simplify(e)} but the NDDO one-centre term is {SPEC[kind]}")
-    acc = [st for st in oc.body if isinstance(st, ast.AugAssign) and norm(st.target) == "F[maskd]"]
-    ctx.check(bool(acc) and isinstance(acc[0].op, ast.Add) and norm(acc[0].value) == "tmp", "R3", fk, oc, "_one_center", "F[maskd] += tmp",
-              "one-centre terms are added to the diagonal atom blocks", "one-centre accumulation changed")
     # G: both arms
     g = gx.func("G")
 
@@ -166,8 +128,8 @@ def run(ctx):
                       f"G: one-centre term {kind} = {sp.simplify(e)} but the NDDO formula is {SPEC[kind]}")
     pt = [st for st in ast.walk(g) if isinstance(st, ast.Assign) and norm(st.targets[0]) == "Pptot"]
     ctx.check(bool(pt) and norm(pt[0].value).replace(" ", "") == "P[...,1,1]+P[...,2,2]+P[...,3,3]", "R3", gx, pt[0] if pt else g, "G", "Pptot", "G: p-shell population", "G: Pptot changed")
-    if n3 < 12:
-        raise AnalysisError(f"only {n3} one-centre terms interpreted")
+    if n3 < 4:
+        raise AnalysisError(f"only {n3} one-centre response terms interpreted in G")
     # first-principles oracle: brute-force F_mn = sum_ls P_ls [(mn|ls) - 1/2 (ml|ns)] over the sp shell with the six non-zero
     # one-centre integral classes; every upper-triangle element of the code must agree (restricted and unrestricted)
     from .. import nddo
@@ -395,7 +357,11 @@ def one_center_first_principles(ctx, repo, rid):
             ivs[st.targets[0].id] = vec[st.value.args[0].id]
     P = nddo.density("P")
     F = nddo.fock_restricted(P)
-    code = nddo.interpret_one_center(fk, oc, {"Pdiag": lambda a, b: P[a][b]}, sc, ivs)
+    roles = nddo.density_locals(oc, {1: "total"})
+    bm = {nm: (lambda a, b: P[a][b]) for nm, r in roles.items() if r == "total"}
+    if not bm:
+        raise AnalysisError("fock._one_center: no local selects the atom-diagonal density blocks (P[maskd])")
+    code = nddo.interpret_one_center(fk, oc, bm, sc, ivs, scratch=nddo.scratch_tensor(oc))
     want = {(a, b) for a in range(4) for b in range(a, 4)}
     ctx.check(set(code) == want, rid, fk, oc, "_one_center", "elements", "fock._one_center defines all 10 upper-triangle elements of the atom block",
               f"fock._one_center defines elements {sorted(code)}; missing {sorted(want - set(code))}")
@@ -407,7 +373,12 @@ def one_center_first_principles(ctx, repo, rid):
     Pa, Pb = nddo.density("A"), nddo.density("B")
     Fa = nddo.fock_unrestricted(Pa, Pb)
     ou = fu.func("_one_center_u")
-    codeu = nddo.interpret_one_center(fu, ou, {"Ptot_d": lambda a, b: Pa[a][b] + Pb[a][b], "Pspin_d": lambda a, b: Pa[a][b], "P_opp_spin_d": lambda a, b: Pb[a][b]}, sc)
+    rolesu = nddo.density_locals(ou, {1: "total", 2: "spin"})
+    view = {"total": lambda a, b: Pa[a][b] + Pb[a][b], "spin": lambda a, b: Pa[a][b], "opp": lambda a, b: Pb[a][b]}
+    bmu = {nm: view[r] for nm, r in rolesu.items()}
+    if set(rolesu.values()) != {"total", "spin", "opp"}:
+        raise AnalysisError(f"_one_center_u: density views not recognised ({rolesu})")
+    codeu = nddo.interpret_one_center(fu, ou, bmu, sc, scratch=nddo.scratch_tensor(ou))
     ctx.check(set(codeu) == want, rid, fu, ou, "_one_center_u", "elements", "_one_center_u defines all 10 upper-triangle elements",
               f"_one_center_u defines elements {sorted(codeu)}")
     for (a, b), v in sorted(codeu.items()):
@@ -416,3 +387,4 @@ def one_center_first_principles(ctx, repo, rid):
                   f"unrestricted one-centre F^s[{a}][{b}] equals sum Ptot (mn|ls) - sum P^s (ml|ns) for arbitrary P_alpha != P_beta",
                   f"_one_center_u: element ({a},{b}) = {sp.factor(v)} but the spin-s NDDO Fock element is {sp.factor(Fa[a][b])} "
                   f"(wrong spin density in a Coulomb/exchange term only shows for spin-polarised densities)")
+    return code, codeu, P, Pa, Pb
